@@ -1,9 +1,9 @@
 """C07 Encoding a grid and reading it back preserves the grid"""
 PROPERTY = "C07"
 LEVEL = "proof"
-FUNCTIONS = []
+FUNCTIONS = ['uxarray.io._ugrid._encode_ugrid']
 STANDINS = ["roundtrip"]
 ASSUMPTIONS = []
 EXPLANATION = ""
-LEVEL_TEXT = 'bounded stand-in only so far: encode -> open -> compare for UGRID/Exodus/SCRIP x materialised derived quantities x earlier encodings, NetCDF write, module constants'
-LEVEL_NOTE = 'no function under contract yet (encoders build variable names from strings; _encode_ugrid frame contract planned)'
+LEVEL_TEXT = '_encode_ugrid proved for every dataset satisfying the Grid invariant: each variable / coordinate / dimension named by the grid_topology attributes exists, internal helper attributes are stripped, the module-level attribute templates and the caller (Grid) dataset are never stored into (ownership frames), the result is a new object; Exodus / SCRIP encoders and the encode -> open -> compare round trip incl. NetCDF are bounded (catalogue meshes x materialised quantities x earlier encodings)'
+LEVEL_NOTE = 'xarray Dataset modelled as symbolic mappings of variables / dims / attrs (copy, drop_vars, item access); Exodus / SCRIP encoders build names by string concatenation and are not under contract'
